@@ -521,12 +521,12 @@ func (p *Parser) evaluateVarNames() ([]lexer.Token, error) {
 }
 
 // calledFunction returns how many values the expression delivers if it is a (parenthesized)
-// function call and the name of the function. For all other expressions the length is -1.
+// function or program call and the name of the function or program. For all other expressions the length is -1.
 func calledFunction(expr Expression) (int, string) {
 	for expr.StatementType() == STATEMENT_TYPE_GROUP {
 		expr = expr.(Group).Child()
 	}
-	if call, isCall := expr.(FunctionCall); isCall {
+	if call, isCall := expr.(Call); isCall {
 		return len(call.ReturnTypes()), call.Name()
 	}
 	return -1, ""
